@@ -20,6 +20,8 @@ an independent WHATWG-style classifier (what a browser does: strip C0/space, dro
 * ``@authenticated``: 302 whose Location is exactly the configured login_url when that carries a query,
   else login_url, optionally followed by ``?next=`` + one well-formed percent-encoded value (its content is
   not part of the statement and only labelled).
+The request version is a generated dimension for every redirect kind: HTTP/1.1 and HTTP/1.0, with the
+regular Host header, without one (1.0), with ``Host: evil.example`` and with ``Connection: keep-alive``.
 EITHER (labelled only): request targets that are not in origin-form (do not start with ``/``): HTTP gives
 them no path; only "well-formed response, no crash" is asserted.  Non-GET/HEAD methods: no redirect expected.
 
@@ -44,6 +46,11 @@ Sensitivity (scratch copies, quick tier, seed 1):
     slash, backslash, slash were left to sampling.  The grid enumerates every lead of length <= 5 over
     {'/', '\\', '%2f', '%5c'} (1364 leads) in front of evil.com through @removeslash/@addslash behind every pattern
     that can match and through both static mounts (the static tree has a directory for every lead): 4948 cases, ~3 s.
+  * web.py redirect() makes Location absolute for HTTP/1.0 clients (urljoin(full_url(), url)): every path-derived
+    redirect becomes "http://<Host header>/..." -> caught at seeds 1,2,3 (offsite_location kind=scheme).  Missed
+    before: all requests were HTTP/1.1 with the same Host.  The request version is now a generated dimension (HTTP/1.1,
+    HTTP/1.0, 1.0 without Host, 1.0 and 1.1 with "Host: evil.example", 1.0 keep-alive) in the exploration and, for
+    every redirect kind (both decorators x patterns, three static mounts, three login kinds), in the grid.
 Corrections:
   * the check used to demand next == the exact request URI (relative login) / full URL (absolute login).  The
     statement only says that @authenticated redirects "only to the configured login URL"; a tree that collapses the
@@ -192,11 +199,34 @@ def classify(loc: str) -> str:
     return "relative"
 
 
-def evaluate(route, method, target):
-    labels = {"route:" + route, "method:" + method}
+# request version / Host header variants: (HTTP version, Host header value or None)
+VERSIONS = {
+    "1.1": ("HTTP/1.1", HOST),
+    "1.0": ("HTTP/1.0", HOST),
+    "1.0-nohost": ("HTTP/1.0", None),
+    "1.0-evilhost": ("HTTP/1.0", "evil.example"),
+    "1.1-evilhost": ("HTTP/1.1", "evil.example"),
+    "1.0-keepalive": ("HTTP/1.0", HOST),
+}
+
+
+def build_request(method, target, ver):
+    version, host = VERSIONS[ver]
+    lines = [method + " " + target + " " + version]
+    if host is not None:
+        lines.append("Host: " + host)
+    if ver == "1.0-keepalive":
+        lines.append("Connection: keep-alive")
+    if method in ("POST", "PUT"):
+        lines.append("Content-Length: 0")
+    return ("\r\n".join(lines) + "\r\n\r\n").encode("latin-1")
+
+
+def evaluate(route, method, target, ver="1.1"):
+    labels = {"route:" + route, "method:" + method, "request:" + ver}
     path, _, query = target.partition("?")
-    o = wu.run_request(APPS[route], wu.request_bytes(method, target), method)
-    detail = {"route": route, "method": method, "target": target, "outcome": o.kind, "wire": o.wire[:500]}
+    o = wu.run_request(APPS[route], build_request(method, target, ver), method)
+    detail = {"route": route, "method": method, "target": target, "request": ver, "outcome": o.kind, "wire": o.wire[:500]}
 
     def problem(clause, extra=None, sig=None):
         d = dict(detail)
@@ -314,8 +344,9 @@ def evaluate(route, method, target):
 
 
 def run_case(ctx, case):
-    route, method, target = case
-    labels, prob = evaluate(route, method, target)
+    route, method, target = case[:3]
+    ver = case[3] if len(case) > 3 else "1.1"     # (older replay files have no version element)
+    labels, prob = evaluate(route, method, target, ver)
     path = target.partition("?")[0]
     first = re.sub(r"^(?:/|\\|%2[fF]|%5[cC])*", "", path).split("/")[0]
     nontrivial = bool(re.match(r"(?:/|\\|%2[fF]|%5[cC]){2}", path)) or any(first.startswith(h) for h in HOSTLIKE)
@@ -347,13 +378,14 @@ target_s = st.builds(
 )
 
 
-def _fix(route, method, target):
+def _fix(route, method, target, ver):
     if route == "static_prefix" and not target.startswith("/static"):
         target = "/static" + (target if target.startswith(("/", "\\", "%")) else "/" + target)
-    return (route, method, target)
+    return (route, method, target, ver)
 
 
-case_s = st.builds(_fix, st.sampled_from(ROUTES), st.sampled_from(["GET", "GET", "GET", "HEAD", "POST"]), target_s)
+ver_s = st.sampled_from(["1.1", "1.1", "1.1", "1.0", "1.0", "1.0-nohost", "1.0-evilhost", "1.1-evilhost", "1.0-keepalive"])
+case_s = st.builds(_fix, st.sampled_from(ROUTES), st.sampled_from(["GET", "GET", "GET", "HEAD", "POST"]), target_s, ver_s)
 
 def grid_cases():
     """Every lead sequence of length <= 5 over {'/', '\\', '%2f', '%5c'} in front of a host-like segment,
@@ -373,6 +405,18 @@ def grid_cases():
             yield ("as_any", "HEAD", lead + "@evil.com?next=//x")
             yield ("static_root", "GET", lead + GRID_HOST)
             yield ("static_multi", "GET", lead + GRID_HOST)
+    # every redirect kind x every request version / Host variant (ordinary and double-slash paths)
+    for ver in VERSIONS:
+        for lead in ("/", "//", "/\\", "/d/"):
+            for pk in ("any", "slash_group"):
+                yield ("rs_" + pk, "GET", lead + GRID_HOST + "/", ver)
+                yield ("as_" + pk, "GET", lead + GRID_HOST + "?next=//x", ver)
+                yield ("as_" + pk, "HEAD", lead + GRID_HOST, ver)
+            yield ("static_root", "GET", lead + "x", ver)
+            yield ("static_multi", "GET", lead + GRID_HOST, ver)
+            yield ("static_prefix", "GET", "/static" + lead + "d", ver)
+            for auth in ("auth_rel", "auth_abs", "auth_query"):
+                yield (auth, "GET", lead + GRID_HOST + "?a=1", ver)
 
 
 PARTS = {"main": run_case, "grid": run_case}
